@@ -6,7 +6,7 @@ regex over the whole alphabet — language equivalence and exact liveness for se
 """
 from __future__ import annotations
 
-from ..core import Ctx, call, require
+from ..core import Ctx, Violation, call, require
 from ..draw import Draw
 from ..gen import exprs as ge
 from ..ref import rx
@@ -169,7 +169,15 @@ def _check_one(case: dict, ctx: Ctx) -> None:
         # them takes minutes without being wrong, and a time limit could not tell slow from stuck: inconclusive
         ctx.label("skipped:automaton-too-large")
         return
-    o = call("schema", Schema, spec, reject=(Exception,))
+    try:
+        o = call("schema", Schema, spec, reject=(Exception,))
+    except Violation as v:
+        if v.clause.endswith(":hang") and ge.expansion(case["expr"]) >= 30:
+            # counted groups over ambiguous alternatives (`(text inline{3,4}){2,3}` with text in the group inline):
+            # the subset construction is exponential there; slow is not stuck, and the time limit cannot tell
+            ctx.label("inconclusive:slow-compile-of-nested-counts")
+            return
+        raise
     if rs is None and "unspecified upstream" in (ref_err or ""):
         # {n,m} with m < n: neither the documentation nor upstream says what it means (upstream compiles it to
         # something); whatever the library does with it is outside the statement
